@@ -27,6 +27,8 @@ type Solver struct {
 	marks   []int
 	bin     string
 	timeout int
+	incremental bool
+	pending     bool
 }
 
 func newSolver(bin string, timeoutMs int) *Solver {
@@ -58,34 +60,66 @@ func (s *Solver) close() {
 
 func (s *Solver) raw(x string) { io.WriteString(s.in, x+"\n") }
 
-// send a declaration/assertion that belongs to the current path
+// send records a declaration/assertion that belongs to the current path. Nothing is sent to the solver
+// until the next check: every check-sat is posed from scratch ((reset) + the whole path), because z3's
+// incremental (push/pop) mode is an order of magnitude slower on bit-vector arithmetic than its default
+// one-shot pipeline, while re-sending a path of a few hundred statements costs well under a millisecond.
+// In incremental mode (the default; cheapest for many small queries) statements are sent at once and
+// queries use push/pop.
 func (s *Solver) send(x string) {
 	s.path = append(s.path, x)
-	s.raw(x)
+	if s.incremental {
+		s.closeScope()
+		s.raw(x)
+	}
 }
 
-// beginPath / endPath bracket one path execution
-func (s *Solver) beginPath() {
+func (s *Solver) beginPath(incremental bool) {
 	s.path = s.path[:0]
-	s.raw("(push)")
+	s.incremental = incremental
+	if incremental {
+		s.raw("(reset)")
+		s.raw("(push)")
+	}
 }
 func (s *Solver) endPath() {
-	s.raw("(pop)")
+	if s.incremental {
+		s.closeScope()
+		s.raw("(pop)")
+	}
 	s.path = s.path[:0]
 }
 
-// checkWith asks whether path ∧ extra is satisfiable without changing the path
-func (s *Solver) checkWith(extra string) string {
-	s.raw("(push)")
-	s.raw("(assert " + extra + ")")
-	r := s.check()
-	s.raw("(pop)")
-	return r
-}
-
-func (s *Solver) check() string {
+// checkWith asks whether path ∧ extra... is satisfiable without changing the path. A following
+// values() call refers to the model of this query.
+func (s *Solver) checkWith(extra ...string) string {
+	var sb strings.Builder
+	if s.incremental {
+		if len(extra) > 0 {
+			sb.WriteString("(push)\n")
+		}
+	} else {
+		sb.WriteString("(reset)\n")
+		for _, l := range s.path {
+			sb.WriteString(l)
+			sb.WriteByte('\n')
+		}
+	}
+	for _, x := range extra {
+		if strings.HasPrefix(x, "(declare-") || strings.HasPrefix(x, "(define-") {
+			sb.WriteString(x)
+		} else {
+			sb.WriteString("(assert " + x + ")")
+		}
+		sb.WriteByte('\n')
+	}
+	sb.WriteString("(check-sat)\n")
 	t0 := time.Now()
-	s.raw("(check-sat)")
+	s.closeScope()
+	if s.incremental && len(extra) > 0 {
+		s.pending = true
+	}
+	io.WriteString(s.in, sb.String())
 	l, err := s.out.ReadString('\n')
 	s.queries++
 	s.dur += time.Since(t0)
@@ -106,6 +140,43 @@ func (s *Solver) check() string {
 		panic(inconclusive{"solver said: " + l})
 	}
 	return l
+}
+
+func (s *Solver) check() string { return s.checkWith() }
+
+// closeScope pops the scope of the previous checkWith (kept open so that values() can read its model)
+func (s *Solver) closeScope() {
+	if s.pending {
+		s.pending = false
+		s.raw("(pop)")
+	}
+}
+
+// retryStandalone re-decides "path ∧ extra" in a fresh solver process with a longer time limit
+// (used when the incremental solver answered unknown, typically under heavy machine load)
+func (s *Solver) retryStandalone(extra string, seconds int) string {
+	f, err := os.CreateTemp("", "symgo-retry-*.smt2")
+	if err != nil {
+		return "unknown"
+	}
+	defer os.Remove(f.Name())
+	f.WriteString(s.script(extra))
+	f.Close()
+	t0 := time.Now()
+	out, _ := exec.Command(s.bin, fmt.Sprintf("-T:%d", seconds), f.Name()).CombinedOutput()
+	s.dur += time.Since(t0)
+	s.queries++
+	l := strings.TrimSpace(strings.SplitN(string(out), "\n", 2)[0])
+	switch l {
+	case "sat":
+		s.sat++
+		return "sat"
+	case "unsat":
+		s.unsat++
+		return "unsat"
+	}
+	s.unknown++
+	return "unknown"
 }
 
 // standalone SMT-LIB script for "path ∧ extra"
